@@ -26,8 +26,8 @@ class Body:
 
 def fingerprint(b):
     """(parent path, argument types, return type) of a function body; None for closures, constants and bodies without MIR"""
-    if "{closure" in b.path or b.def_kind not in ("AssocFn", "Fn") or not b.mir:
-        return None
+    if "{closure" in b.path or "{constant#" in b.path or b.def_kind not in ("AssocFn", "Fn") or not b.mir:
+        return None     # items inside anonymous constants (the `library!` bodies) are named by position, not by what they are
     n = b.mir.get("argc", 0)
     tys = [str(l.get("ty")) for l in b.mir["locals"][:n + 1]]
     return [b.path.rsplit("::", 1)[0] if "::" in b.path else "", tys[1:], tys[0]]
